@@ -8,6 +8,7 @@ import Driver.Dedup
 import Driver.Singleflight
 import Driver.Session
 import Driver.Reconstruct
+import Driver.Xorb
 open Xet.Drv
 
 def dispatch (blob : Blob) (line : String) : String :=
@@ -19,6 +20,7 @@ def dispatch (blob : Blob) (line : String) : String :=
     else if cmd.startsWith "hash" || cmd.startsWith "hex." then handleHash blob cmd rest
     else if cmd.startsWith "shard." then handleShard blob cmd rest
     else if cmd.startsWith "sess." || cmd == "sha256" then handleSession blob cmd rest
+    else if cmd.startsWith "xorb." then handleXorb blob cmd rest
     else if cmd.startsWith "recon." then handleRecon blob cmd rest
     else if cmd.startsWith "sf." then handleSf blob cmd rest
     else if cmd.startsWith "dedup." then handleDedup blob cmd rest
